@@ -250,3 +250,61 @@ theorem accept_sound [BEq σ] (A : Acceptor σ α ω) (init : σ) (n : Nat) (fro
       exact ih _ _ (obsStep_sound A init n front o h) hr
 
 end GoSup.Core
+
+namespace GoSup.Core
+variable {σ α : Type}
+
+/-! ## progress: absence of deadlock + a decreasing measure -/
+
+/-- a measure that every action of a class decreases bounds the length of every execution made of such actions -/
+theorem run_length_le_measure {L : Lts σ α} (isLib : α → Bool) (M : σ → Nat)
+    (hdec : ∀ s a s', isLib a = true → L.step s a = some s' → M s' < M s)
+    (s t : σ) (as : List α) (hall : as.all isLib = true) (hrun : run L s as = some t) : as.length + M t ≤ M s := by
+  induction as generalizing s with
+  | nil => simp [run] at hrun; subst hrun; simp
+  | cons a as ih =>
+    simp only [List.all_cons, Bool.and_eq_true] at hall
+    simp only [run] at hrun
+    cases hs : L.step s a with
+    | none => simp [hs] at hrun
+    | some s' =>
+      simp only [hs, Option.bind_some] at hrun
+      have h1 := ih s' hall.2 hrun
+      have h2 := hdec s a s' hall.1 hs
+      simp only [List.length_cons]
+      omega
+
+/-- if, on the states satisfying `P` (closed under the class), a non-final state always has an enabled action of the
+class and every such action decreases the measure, then from every such state the class alone reaches a final state,
+within `M s` steps -/
+theorem exists_final_run {L : Lts σ α} (isLib : α → Bool) (M : σ → Nat) (P final : σ → Prop)
+    (hP : ∀ s a s', P s → isLib a = true → L.step s a = some s' → P s')
+    (hprog : ∀ s, P s → ¬ final s → ∃ a, isLib a = true ∧ (L.step s a).isSome = true)
+    (hdec : ∀ s a s', isLib a = true → L.step s a = some s' → M s' < M s) :
+    ∀ s, P s → ∃ as t, as.all isLib = true ∧ run L s as = some t ∧ final t ∧ as.length ≤ M s := by
+  have key : ∀ n s, M s ≤ n → P s → ∃ as t, as.all isLib = true ∧ run L s as = some t ∧ final t ∧ as.length ≤ M s := by
+    intro n
+    induction n with
+    | zero =>
+      intro s hm hp
+      by_cases hf : final s
+      · exact ⟨[], s, rfl, rfl, hf, Nat.zero_le _⟩
+      · obtain ⟨a, hlib, hen⟩ := hprog s hp hf
+        obtain ⟨s', hs'⟩ := Option.isSome_iff_exists.mp hen
+        have := hdec s a s' hlib hs'
+        omega
+    | succ n ih =>
+      intro s hm hp
+      by_cases hf : final s
+      · exact ⟨[], s, rfl, rfl, hf, Nat.zero_le _⟩
+      · obtain ⟨a, hlib, hen⟩ := hprog s hp hf
+        obtain ⟨s', hs'⟩ := Option.isSome_iff_exists.mp hen
+        have hlt := hdec s a s' hlib hs'
+        obtain ⟨as, t, h1, h2, h3, h4⟩ := ih s' (by omega) (hP s a s' hp hlib hs')
+        refine ⟨a :: as, t, by simp [hlib, h1], by simp [run, hs', h2], h3, ?_⟩
+        simp only [List.length_cons]
+        omega
+  intro s hp
+  exact key (M s) s (Nat.le_refl _) hp
+
+end GoSup.Core
